@@ -240,6 +240,39 @@ Section AccTheorems.
     change (length (z :: zs)) with (S (length zs)) in *.
     destruct (Z.eqb_spec (0 + Z.of_nat (S (length zs))) 0); [lia|]. reflexivity.
   Qed.
+  (** AVG over an integer column: the same accumulation, then one f64 division *)
+  Theorem avg_debug_exact vs v :
+    int_col vs = true -> agg_avg temporal Debug false vs = Ok v ->
+    v = match ints_of vs with
+        | [] => VNull
+        | zs => VNumeric (fdiv b64 (f_of_Z b64 (zsum zs)) (f_of_Z b64 (Z.of_nat (length zs))))
+        end.
+  Proof.
+    intros Hc H. unfold agg_avg, acc0 in H. rewrite sum_fold_int in H by assumption.
+    destruct (int_fold Debug 0 0 (ints_of vs)) as [[s' c']| |] eqn:E; cbn [bind] in H; try discriminate.
+    injection H as <-. apply int_fold_debug_ok in E as (-> & -> & _).
+    unfold avg_finalize. cbn [a_count a_sum fst snd sql_value_to_f64].
+    destruct (ints_of vs) as [|z zs]; [reflexivity|].
+    change (length (z :: zs)) with (S (length zs)).
+    destruct (Z.eqb_spec (0 + Z.of_nat (S (length zs))) 0); [lia|]. rewrite !Z.add_0_l. reflexivity.
+  Qed.
+
+  Theorem avg_no_wrap p vs :
+    int_col vs = true -> Z.of_nat (length vs) < 2 ^ 63 -> prefixes_fit 0 (ints_of vs) = true ->
+    agg_avg temporal p false vs =
+    Ok match ints_of vs with
+       | [] => VNull
+       | zs => VNumeric (fdiv b64 (f_of_Z b64 (zsum zs)) (f_of_Z b64 (Z.of_nat (length zs))))
+       end.
+  Proof.
+    intros Hc Hl Hp. unfold agg_avg, acc0. rewrite sum_fold_int by assumption.
+    pose proof (length_ints_of vs).
+    rewrite int_fold_no_overflow by (try assumption; lia). cbn [bind].
+    unfold avg_finalize. cbn [a_count a_sum fst snd sql_value_to_f64].
+    destruct (ints_of vs) as [|z zs]; [reflexivity|].
+    change (length (z :: zs)) with (S (length zs)).
+    destruct (Z.eqb_spec (0 + Z.of_nat (S (length zs))) 0); [lia|]. rewrite !Z.add_0_l. reflexivity.
+  Qed.
 End AccTheorems.
 
 (** [SELECT SUM(a)] over the rows 9223372036854775807 and 1 *)
@@ -499,6 +532,60 @@ Proof.
   - cbn in H. now injection H.
   - change (length (z :: zs)) with (S (length zs)) in H.
     destruct (Z.eqb_spec (Z.of_nat (S (length zs))) 0); [lia|]. now injection H.
+Qed.
+
+(** * the f64 paths (simd_aggregate_f64, compute_sum) add in floating point: no panic, whatever the values *)
+Lemma simd_agg_f64_loop_no_panic p bsize batch blen sum count vs x :
+  0 <= count -> count + Z.of_nat (length vs) < 2 ^ 63 ->
+  simd_agg_f64_loop p bsize batch blen sum count vs <> Panic x.
+Proof.
+  revert batch blen sum count. induction vs as [|v vs IH]; intros batch blen sum count H0 Hl; [discriminate|].
+  change (length (v :: vs)) with (S (length vs)) in Hl.
+  cbn [simd_agg_f64_loop]. destruct (extract_f64 v) as [[z|]| |] eqn:E; cbn [bind].
+  - rewrite i64_op_fits by (apply fits_i64_iff; lia). cbn [bind].
+    destruct (Nat.leb bsize (S blen)); apply IH; lia.
+  - apply IH; lia.
+  - discriminate.
+  - destruct v; discriminate.
+Qed.
+
+Theorem simd_aggregate_f64_no_panic p bsize op vs x :
+  Z.of_nat (length vs) < 2 ^ 63 -> simd_aggregate_f64 p bsize op vs <> Panic x.
+Proof.
+  intros Hl. unfold simd_aggregate_f64.
+  destruct (simd_agg_f64_loop p bsize [] 0 0 0 vs) as [[[b s] c]| |] eqn:E; cbn [bind].
+  - destruct (c =? 0); [discriminate|]. destruct op; discriminate.
+  - discriminate.
+  - exfalso. eapply simd_agg_f64_loop_no_panic; [| |exact E]; lia.
+Qed.
+
+Lemma compute_sum_loop_no_panic sum count vs x : compute_sum_loop sum count vs <> Panic x.
+Proof.
+  revert sum count. induction vs as [|v vs IH]; intros sum count; [discriminate|].
+  cbn [compute_sum_loop]. destruct v; try apply IH; discriminate.
+Qed.
+
+Theorem compute_sum_no_panic vs x : compute_sum vs <> Panic x.
+Proof.
+  unfold compute_sum. destruct (compute_sum_loop 0 0 vs) eqn:E; cbn [bind]; try discriminate.
+  exfalso. eapply compute_sum_loop_no_panic; eassumption.
+Qed.
+
+(** the columnar dispatcher: an integer first value within the first 100 rows selects the i64 path;
+    consequently every panic of a columnar SUM/AVG is an i64 overflow of the simd path *)
+Theorem columnar_aggregate_panic_only_i64_path p bsize op vs x :
+  Z.of_nat (length vs) < 2 ^ 63 ->
+  columnar_aggregate p bsize op vs = Panic x ->
+  can_use_simd 100 vs = Some true /\ simd_aggregate_i64 p bsize op vs = Panic x.
+Proof.
+  intros Hl. unfold columnar_aggregate. destruct (can_use_simd 100 vs) as [[|]|]; intros H.
+  - auto.
+  - exfalso. eapply simd_aggregate_f64_no_panic; eassumption.
+  - exfalso. destruct op.
+    + eapply compute_sum_no_panic; eassumption.
+    + unfold compute_avg in H. destruct (compute_sum vs) as [w| |] eqn:E; cbn [bind] in H; try discriminate.
+      * destruct w; try discriminate. destruct (0 <? _); discriminate.
+      * eapply compute_sum_no_panic; eassumption.
 Qed.
 
 Lemma simd_aggregate_refuted :
